@@ -25,12 +25,21 @@ theorem C13_spec_flag_iff (b f : Bool) (cap : Nat) (cs : List Spec.Call) :
     (Spec.run (Spec.init b f cap) cs).noRecv = true ↔ ∀ s, (Spec.run (Spec.init b f cap) cs).cur s = none :=
   Spec.noRecv_iff_no_stream b f cap cs
 
-/-- Core: the first step of a send (the signal load) with the no-reader flag up ends the inner `try_send`
-with `Disconnected` and changes no ring word. -/
-theorem C13_core_send_sees_flag (σ : St) (t inp : Nat) (hpc : (σ.th t).pc = .s0) (hf : σ.noReader = true) :
-    (stepRun σ t inp).2 = sendDone (σ.flush t) t .disc ∧ (stepRun σ t inp).2.ring = σ.ring := by
-  refine ⟨?_, stepRun_ring_same σ t inp (by rw [hpc]; rfl)⟩
-  simp only [stepRun, hpc, hf, ↓reduceIte]
+/-- Core: the first step of a send (the signal load) with the no-reader flag up leaves every ring word alone
+and continues either with the token refresh (epoch bit also set) or directly with the disconnect decision -/
+theorem C13_core_send_sees_flag (σ : St) (t inp : Nat) (hpc : (σ.th t).pc = .s0) :
+    (stepRun σ t inp).2.ring = σ.ring ∧
+    (σ.sigE = false → (stepRun σ t inp).2 = mgrDone (σ.flush t) t .sendStart) ∧
+    (σ.sigE = true → ((stepRun σ t inp).2.th t).pc = .u1 .sendStart) := by
+  refine ⟨stepRun_ring_same σ t inp (by rw [hpc]; rfl), ?_, ?_⟩
+  · intro h; simp only [stepRun, hpc, h]; simp
+  · intro h; simp only [stepRun, hpc, h]; simp [St.goto, St.flush, St.setTh, upd]
+
+/-- Core: once the token refresh (if any) is done, a send that finds the no-reader flag up ends the inner
+`try_send` with `Disconnected` — it never loads `head`, never touches the ring -/
+theorem C13_core_flag_means_disc (σ : St) (t : Nat) (hf : σ.noReader = true) :
+    mgrDone σ t .sendStart = sendDone σ t .disc := by
+  simp [mgrDone, hf]
 
 /-- Core: an inner `try_send` that ended with `Disconnected` makes `try_send` return `Disconnected` and
 `start_send` return `Err` — it never parks and never retries. -/
